@@ -368,7 +368,8 @@ def cbmc_cmd(unit, gb, trace=False, props=None):
     return cmd
 
 
-TEXT_RES = re.compile(r"^\[(\S+)\] line (\d+) (.*): (SUCCESS|FAILURE|UNKNOWN|ERROR)$")
+TEXT_RES = re.compile(r"^\[(\S+)\] (?:file (\S+) )?line (\d+) (.*): (SUCCESS|FAILURE|UNKNOWN|ERROR)$")
+TEXT_RES_NOLINE = re.compile(r"^\[(\S+)\] (.*): (SUCCESS|FAILURE|UNKNOWN|ERROR)$")
 TEXT_HDR = re.compile(r"^(\S.*) function (\S+)$")
 
 
@@ -389,9 +390,16 @@ def parse_cbmc_text(path):
             continue
         m = TEXT_RES.match(ln)
         if m:
-            results.append({"property": m.group(1), "description": m.group(3), "status": m.group(4),
-                            "sourceLocation": {"line": m.group(2), "file": fl, "function": fn}})
+            results.append({"property": m.group(1), "description": m.group(4), "status": m.group(5),
+                            "sourceLocation": {"line": m.group(3), "file": m.group(2) or fl, "function": fn}})
             continue
+        m = TEXT_RES_NOLINE.match(ln)
+        if m:
+            results.append({"property": m.group(1), "description": m.group(2), "status": m.group(3),
+                            "sourceLocation": {"line": None, "file": fl, "function": fn}})
+            continue
+        if ln.startswith("["):
+            raise Tooling("unparsed cbmc result line: " + ln[:200])
         h = TEXT_HDR.match(ln)
         if h:
             fl, fn = h.group(1), h.group(2)
